@@ -194,7 +194,7 @@ CHECKS = {
              "step that forwards nothing, and every time step - the fake step's included - names a current player "
              "who can still act. Finding C15-K1 was found by this check (the fake step named the first learning "
              "agent even when it was done: fake-step livelock after current_player = <done agent>) and repaired in "
-             "commit TBD; its history is a regression case. Tie: real OpenSpielWrapper (open_spiel installed) and "
+             "commit 8364794; its history is a regression case. Tie: real OpenSpielWrapper (open_spiel installed) and "
              "GymWrapper over real managers over the stub; time steps and forwarded manager calls must equal the "
              "model's, judged by specC15 / specC15X; the setter stream drives `wrapper.current_player = id` (done "
              "and live learning agents, non-learning agents, unknown ids) interleaved with steps and resets, "
